@@ -8,7 +8,7 @@ From Coq Require Import List Arith ZArith Bool.
 Import ListNotations.
 From Acts.Gen Require Import GenState.
 From Acts.Model Require Import Engine Oracles.
-From Acts.Proofs Require Import EngineBasics C02Core C02Ops.
+From Acts.Proofs Require Import EngineBasics C02Core C02Ops FinalProofs.
 
 Theorem C06_error_code_only_in_error_state :
   forall ns c0 ops t, t_err (tk (run ns c0 ops) t) <> None -> st (run ns c0 ops) t = SError.
@@ -28,6 +28,15 @@ Theorem C06_caught_is_marked :
   forall ns c0 ops t a s,
     In (ETrans t SError SRunning a s) (trace (run ns c0 ops)) -> t_catch_done (tk (run ns c0 ops) t) = true.
 Proof. exact revived_is_marked. Qed.
+(* a non-matching catch changes nothing (every engine state): emitting an errored task none of whose catches takes the
+   error -- no catch for that code and no catch-all, or its one catch already used -- writes no task state, no error
+   code and no mark, and appends only events that are no state writes (hook acts, the error message); the error then
+   goes on to the parent (emit_error) *)
+Theorem C06_non_matching_catch_changes_nothing :
+  forall f e j, j < ntasks e -> st e j = SError -> uncaught e j ->
+  (forall t, st (emit f e j) t = st e t /\ t_err (tk (emit f e j) t) = t_err (tk e t) /\ t_catch_done (tk (emit f e j) t) = t_catch_done (tk e t)) /\
+  exists l, trace (emit f e j) = trace e ++ l /\ forallb (fun x => negb (is_trans x)) l = true.
+Proof. exact uncaught_emit_changes_nothing. Qed.
 (* non-vacuity: an error with code 1 on an act under a step that catches it; the step is revived once *)
 Example C06_example :
   let ns := [ Build_node 0 KWorkflow 0 [(ONormal, 1)] None None false [] dspec [] [] [] [] [] [] false;
@@ -40,4 +49,5 @@ Proof. vm_compute. auto. Qed.
 Print Assumptions C06_error_code_only_in_error_state.
 Print Assumptions C06_caught_at_most_once.
 Print Assumptions C06_caught_is_marked.
+Print Assumptions C06_non_matching_catch_changes_nothing.
 Print Assumptions C06_only_revival_leaves_error.
